@@ -670,6 +670,17 @@ class NativeCtx:
         f = resolve(target) if isinstance(target, str) else (getattr(target[0], target[1]) if isinstance(target, tuple) else target)
         return f(*args, **kwargs)
 
+    def invoke_catch(self, target, *args, **kwargs):
+        try:
+            self.invoke(target, *args, **kwargs)
+            return None
+        except StopLoop:
+            return 'StopLoop'
+        except Deadlock:
+            return 'Deadlock'
+        except Exception as e:
+            return exc_name(e)
+
     def raiser(self, excname, *args):
         def f(*_a):
             if excname == 'StopLoop':
